@@ -726,6 +726,10 @@ func (w *worker[T, JobType]) stop(listened context.Context) error {
 	if cancel != nil {
 		defer cancel()
 	}
+	// a WaitUntilFinished that began waiting while the worker was running (a Resume may slip in
+	// during the teardown) waits only for the jobs in flight once the worker is stopped: wake it up,
+	// the event loop that would do so is gone
+	defer func() { w.releaseWaiters(w.curProcessing.Load()) }()
 	defer w.status.Store(stopped)
 
 	w.stopTickers()
